@@ -34,12 +34,14 @@ PATTERNS = {
     'other.is_Function and other.func == Heaviside and (other.args[0] == t)': 'step',
     'other == Heaviside(t) * t': 'ramp',
     'other.is_Function and other.func == sincn and (other.args[0] == t)': 'sinc',
+    'other.is_Function and other.func == sincu and (other.args[0] == t)': 'sincu',
     'other.is_Pow and other.args[1] == 2 and other.args[0].is_Function and (other.args[0].func == sincn) and (other.args[0].args[0] == t)': 'sinc2',
     'other.is_Function and other.func == rect and (other.args[0] == t)': 'rect',
     'other.is_Function and other.func == tri and (other.args[0] == t)': 'tri',
 }
 # branches that are recognised but deliberately outside the modelled class
-OUTSIDE = ['False and other == exp(t)', 'func == sincu', 'func == trap', 'func == tanh', 'other.args[0] == t and other.args[1].is_Pow',
+TRAP_TEST = 'other.is_Function and other.func == trap and (other.args[0] == t)'
+OUTSIDE = ['False and other == exp(t)', 'func == tanh', 'other.args[0] == t and other.args[1].is_Pow',
            'len(other.args) == 2 and (other.args[0] == t) and other.args[1].is_Function']
 EXPU_TEST_MARK = 'other.args[1].func == exp'
 CPOLE_TEST = 'other.is_Pow and other.args[1] == -1 and other.args[0].has(t)'
@@ -202,6 +204,38 @@ def _param_entry(ret_text, expected_builder):
     return None
 
 
+def _trap_entry(br):
+    """the `trap(t, alpha)` branch:   alpha = other.args[1];  [if alpha == 0: return const1 * sincn(f)];
+    return <alpha**p * const1 * sincn(v) * sincn(alpha * v)>   ->  (p, has the alpha == 0 special case)"""
+    import sympy as S
+    f = S.Symbol('f', real=True)
+    sf = S.Symbol('sf', real=True)
+    alpha = S.Symbol('alpha', positive=True)
+    SINC = S.Function('SINC')
+    env = {'I': S.I, 'pi': S.pi, 'f': f, 'sf': sf, 'const1': S.Integer(1), 'const': S.Integer(1), 'sincn': SINC, 'alpha': alpha}
+    asg = [ast.unparse(x) for x in br.body if isinstance(x, ast.Assign)]
+    if 'alpha = other.args[1]' not in asg:
+        raise Unparsed('`alpha = other.args[1]` not found')
+    zero_rect = False
+    for x in br.body:
+        if isinstance(x, ast.If) and ast.unparse(x.test) == 'alpha == 0':
+            r0 = [ast.unparse(y.value) for y in x.body if isinstance(y, ast.Return)]
+            if len(r0) == 1:
+                e0 = eval(compile(ast.parse(r0[0], mode='eval'), '<ret>', 'eval'), {'__builtins__': {}}, env)
+                zero_rect = any(S.simplify(e0 - SINC(v)) == 0 for v in (f, sf))
+    rets = [x for x in br.body if isinstance(x, ast.Return)]
+    if len(rets) != 1:
+        raise Unparsed('%d top-level returns' % len(rets))
+    e = eval(compile(ast.parse(ast.unparse(rets[0].value), mode='eval'), '<ret>', 'eval'), {'__builtins__': {}}, env)
+    for v in (f, sf):
+        q = S.simplify(e / (SINC(v) * SINC(alpha * v)))
+        if not q.has(SINC) and not q.has(v):
+            for p in range(-3, 4):
+                if S.simplify(q - alpha ** p) == 0:
+                    return p, zero_rect
+    raise Unparsed('unexpected closed form `%s`' % ast.unparse(rets[0].value))
+
+
 def parse_table(repo):
     src = open(os.path.join(repo, 'lcapy', 'fourier.py')).read()
     tree = ast.parse(src)
@@ -211,7 +245,7 @@ def parse_table(repo):
             for fn in node.body:
                 if isinstance(fn, ast.FunctionDef) and fn.name == 'term':
                     term_fn = fn
-    info = {'entries': [], 'unparsed': [], 'outside': [], 'expu_uses_sf': None, 'cpole_uses_sf': None, 'cpole_three_way': False, 'fingerprints': {}}
+    info = {'entries': [], 'unparsed': [], 'outside': [], 'trap_alpha_pow': None, 'trap_zero_is_rect': False, 'expu_uses_sf': None, 'cpole_uses_sf': None, 'cpole_three_way': False, 'fingerprints': {}}
     if term_fn is None:
         info['unparsed'].append('FourierTransformer.term not found')
         return info
@@ -290,6 +324,13 @@ def parse_table(repo):
                     info['unparsed'].append('cpole entry: %s' % e)
                 if info['cpole_uses_sf'] is None:
                     info['unparsed'].append('cpole entry: unexpected closed form `%s`' % ret)
+        elif test == TRAP_TEST:
+            try:
+                info['trap_alpha_pow'], info['trap_zero_is_rect'] = _trap_entry(br)
+            except Unparsed as e:
+                info['unparsed'].append('trap entry: %s' % e)
+            except Exception as e:   # noqa
+                info['unparsed'].append('trap entry: %s: %s' % (type(e).__name__, e))
         elif any(m in test for m in OUTSIDE):
             info['outside'].append(test[:70])
         else:
@@ -477,6 +518,10 @@ def generate(repo):
     L.append('def cpoleUsesSf : Option Bool := %s' % optb(info['cpole_uses_sf']))
     L.append('/-- the `1/(c1 t + c0)` entry distinguishes the half plane of the pole (and takes the principal value for a real pole) -/')
     L.append('def cpoleThreeWay : Bool := %s' % ('true' if info.get('cpole_three_way') else 'false'))
+    L.append('/-- the `trap(t, alpha)` entry returns alpha^p·sincn(v)·sincn(alpha v): the exponent p (the pair of the unit-area trapezoid is p = 0); none: not recognised -/')
+    L.append('def trapAlphaPow : Option Int := %s' % ('none' if info.get('trap_alpha_pow') is None else 'some (%d)' % info['trap_alpha_pow']))
+    L.append('/-- … and has the special case `alpha == 0` ↦ sincn (rect) -/')
+    L.append('def trapZeroIsRect : Bool := %s' % ('true' if info.get('trap_zero_is_rect') else 'false'))
     sim = info.get('similarity')
     shp = info.get('shift_phase')
     L.append('/-- `result = self.term(expr2, t, f * scale^se) / abs(scale)^re`: (se, re); the similarity theorem is (-1, 1) -/')
